@@ -375,6 +375,7 @@ func (h c17Handler) Handle(_ context.Context, rec slog.Record) error {
 }
 
 type c17NtimedGen struct {
+	zeroRTT          bool // some samples have a zero or negative round-trip delay
 	rng              *rand.Rand
 	t                int64
 	theta            int64
@@ -402,6 +403,7 @@ func c17NewNtimedGen(rng *rand.Rand) *c17NtimedGen {
 	}
 	g.pSpike = []float64{0.05, 0.15, 0.3, 0.5}[rng.IntN(4)]
 	g.pDom = []float64{0, 0.05, 0.1, 0.25}[rng.IntN(4)]
+	g.zeroRTT = rng.IntN(4) == 0
 	return g
 }
 
@@ -472,6 +474,18 @@ func (g *c17NtimedGen) next() c17Sample {
 				d1 += c17LogU(rng, j1, 1e10-d1)
 				d2 += c17LogU(rng, j2, 1e10-d2)
 			}
+		}
+	}
+	if g.zeroRTT && rng.IntN(12) == 0 {
+		// coarse or identical timestamps: a sample whose round-trip delay is zero or negative
+		switch rng.IntN(3) {
+		case 0:
+			d1, d2 = 0, 0
+		case 1:
+			d1, d2 = c17LogU(rng, 1, 1e6), 0
+			d2 = -d1
+		default:
+			d1, d2 = -c17LogU(rng, 1, 1e6), -c17LogU(rng, 1, 1e6)
 		}
 	}
 	s := c17Mk(g.t, g.theta, d1, d2, proc)
@@ -546,6 +560,9 @@ func c17Tol(lo, hi int64) uint64 {
 func c17RunNtimed(r *ev.Run, id string, ops []c17Op, clk *c17Clock, cls c17Classes) (evals int64) {
 	recA, recB := &c17Rec{}, &c17Rec{}
 	a := client.NewNtimedFilter(slog.New(c17Handler{recA}))
+	// a second long-lived instance with the same history, always asked after the first (a time service
+	// keeps one filter per server): identical histories, identical outputs, also across clock steps
+	a2 := client.NewNtimedFilter(slog.New(slog.DiscardHandler))
 	var b *client.NtimedFilter
 	bKind := ""
 	n := 0 // samples since creation / Reset / epoch change
@@ -563,6 +580,7 @@ func c17RunNtimed(r *ev.Run, id string, ops []c17Op, clk *c17Clock, cls c17Class
 			}
 			n = 0
 			b, bKind = client.NewNtimedFilter(slog.New(c17Handler{recB})), "explicit-reset"
+			_ = c17Try(func() { a2.Reset() })
 			continue
 		case "epoch":
 			clk.epoch.Store(op.Epoch)
@@ -582,6 +600,23 @@ func c17RunNtimed(r *ev.Run, id string, ops []c17Op, clk *c17Clock, cls c17Class
 			return
 		}
 		evals++
+		{
+			var got2 time.Duration
+			if p := c17Try(func() { got2 = a2.Do(t0, t1, t2, t3) }); p != nil {
+				r.Violation("NtimedFilter.Do|panic|generated history", id, witness(i, fmt.Sprint(p)))
+				return
+			}
+			evals++
+			cls["ntimed:second-instance-agrees"]++
+			if got2 != got {
+				r.Violation("NtimedFilter.Do|wrong-value:a second filter instance with the same history answers differently (state shared between instances, or not reset by the clock step)|two instances", id,
+					witness(i, map[string]any{"first_instance": int64(got), "second_instance": int64(got2), "samples_since_reset": n}))
+				return
+			}
+		}
+		if hi-lo <= 0 {
+			cls["ntimed:round-trip-delay<=0"]++
+		}
 		tol := c17Tol(lo, hi)
 		// expectRaw reports a violation unless got is the raw offset (sign, float tolerance).
 		expectRaw := func(class string) bool {
